@@ -83,6 +83,8 @@ func mkOps(arity int) []op {
 		tl = [][]string{{"a"}, {"b"}, {"c"}, {"d"}}
 	case 2:
 		tl = [][]string{{"a", "b"}, {"b", "a"}, {"a", ""}}
+	case 22: // tuples made of the separator and the escape character of the label key encoding
+		tl = [][]string{{"\\", "-"}, {"-\\", ""}, {"-", "-"}}
 	}
 	var ops []op
 	for _, k := range []opKind{opGet, opW1, opW2, opRemove, opExpire} {
@@ -93,6 +95,9 @@ func mkOps(arity int) []op {
 	ops = append(ops, op{opOldest, nil})
 	if arity == 14 {
 		arity = 1
+	}
+	if arity == 22 {
+		arity = 2
 	}
 	bad := append(append([]string{}, tl[0]...), "x")
 	ops = append(ops, op{opGetBad, bad}, op{opRemoveBad, bad}, op{opExpireBad, bad})
@@ -374,6 +379,9 @@ func newReal(c cfg) *metrics.Metric {
 	if ar == 14 {
 		ar = 1
 	}
+	if ar == 22 {
+		ar = 2
+	}
 	keys := []string{"k0", "k1"}[:ar]
 	m := metrics.NewMetric("m", "prog", c.kind, c.typ, keys...)
 	if c.typ == metrics.Buckets {
@@ -381,6 +389,8 @@ func newReal(c cfg) *metrics.Metric {
 	}
 	return m
 }
+
+var startNano = time.Now().UnixNano()
 
 func main() {
 	c := vlib.Init("model_checking")
@@ -393,6 +403,7 @@ func main() {
 		{"timer/int/2key", metrics.Timer, metrics.Int, 2},
 		{"counter/float/2key", metrics.Counter, metrics.Float, 2},
 		{"histogram/buckets/0key", metrics.Histogram, metrics.Buckets, 0},
+		{"counter/int/2key/separator-and-escape-labels", metrics.Counter, metrics.Int, 22},
 	}
 	maxDepth := 0 // to fixpoint in both tiers
 	if d := os.Getenv("C09_DEPTH"); d != "" {
@@ -440,7 +451,11 @@ func main() {
 					return seqx.Result{Violation: s, VKey: cf.name + " initial"}
 				}
 			}
-			return seqx.Result{Key: mo.key()}
+			// the key also carries a reflective dump of the whole real object (unexported fields included,
+			// wall-clock creation stamps masked), so that implementation state the model does not know
+			// about (a cache, a cursor) keeps two histories apart instead of being merged away
+			now := time.Now().UnixNano()
+			return seqx.Result{Key: mo.key() + "|" + vlib.DeepDumpMask(real, startNano-int64(time.Hour), now+int64(time.Hour))}
 		}
 		render := func(h []int) []string {
 			var out []string
@@ -473,6 +488,6 @@ func main() {
 	c.Set("max_depth", maxD)
 	c.Set("exhaustive", exh)
 	c.Set("depth_bound", maxDepth)
-	c.Assume = []string{"state de-duplication on the model state is sound because after every transition the real metric's slice and index are checked to describe exactly the model's list (so the real state is a function of the model state, up to pointer identity)", "timestamps are set explicitly (T1<T2) except creation stamps, which read the wall clock and are only classified as 'later than T2'"}
+	c.Assume = []string{"states are de-duplicated on the model state TOGETHER WITH a reflective dump of the complete real Metric object graph (unexported fields included, pointer identities canonicalised, wall-clock creation stamps masked), so hidden implementation state cannot be merged away", "timestamps are set explicitly (T1<T2) except creation stamps, which read the wall clock and are only classified as 'later than T2'"}
 	c.Finish("explicit-state BFS over operation histories {get, write1@T1, write2@T2, remove, expire, removeOldest, wrong-arity get/remove/expire} on tuples of a small universe, per metric kind/type/arity; every transition executes the real metric and compares enumeration, LabelValues, JSON, errors and slice/index consistency with an ordered-list model; distinct_nontrivial = distinct model states reached")
 }
